@@ -50,14 +50,15 @@ class Gen(object):
 
 
 VAL = [('kind', 'int'), ('iv', 'int')]
-VALPRE = ['0 <= kind <= 9']
+VALPRE = ['0 <= kind <= 7']
+VALPRE_ENUM = ['0 <= kind <= 9']           # kinds 8, 9: the other enumerator names (only an enum field tells them from any other string)
 
 
 def build(g):
     # ---- scalar / enum assignment
     for f in ('a', 'b', 'c', 'e'):
         g.add('scalar_%s' % f, [('a0', 'int'), ('b0', 'int'), ('c0', 'int'), ('e0', 'int')] + VAL,
-              [R8 % 'a0', '-32768 <= b0 <= 32767', '0 <= c0 < 2**64', '0 <= e0 <= 2'] + VALPRE,
+              [R8 % 'a0', '-32768 <= b0 <= 32767', '0 <= c0 < 2**64', '0 <= e0 <= 2'] + (VALPRE_ENUM if f == 'e' else VALPRE),
               'A.step_scalar(%r, a0, b0, c0, e0, kind, iv)' % f, 'MS/assign/%s' % f,
               dict(op='assignment to %s field %s' % ({'a': 'u8', 'b': 'i16', 'c': 'u64', 'e': 'enum'}[f], f),
                    symbolic='state a0,b0,c0,e0; argument of any type (int unbounded)'), [1, -2, 3, 1, 0, 7])
@@ -65,7 +66,7 @@ def build(g):
     for f in ('bf', 'bl', 'bd'):
         for n in range(0, 7):
             g.add('bytes_%s_%d' % (f, n), [('b%d' % i, 'int') for i in range(6)] + [('kind', 'int')],
-                  [' and '.join(R8 % ('b%d' % i) for i in range(6)), '0 <= kind <= 9'],
+                  [' and '.join(R8 % ('b%d' % i) for i in range(6)), '0 <= kind <= 7'],
                   'A.step_bytes(%r, %d, b0, b1, b2, b3, b4, b5, kind)' % (f, n), 'MS/assign-bytes/%s/len%d' % (f, n),
                   dict(op='assignment to bytes field %s' % f, length=n, symbolic='content bytes; or a non-bytes argument'),
                   [1, 2, 3, 4, 5, 6, 0])
@@ -149,7 +150,7 @@ def build(g):
                 g.add('carr_%s_%d_%d' % (which, op, cnt),
                       [('n', 'int'), ('a0', 'int'), ('b0', 'int'), ('a1', 'int'), ('b1', 'int'), ('i', 'int'), ('j', 'int'), ('kind', 'int'), ('iv', 'int'), ('kb', 'int'), ('ivb', 'int')],
                       ['0 <= n <= 2', R8 % 'a0', R16 % 'b0', R8 % 'a1', R16 % 'b1', '(-4 <= i <= 4 or i == 99)', '(-4 <= j <= 4 or j == 99)',
-                       '0 <= kind <= 9', '0 <= kb <= 7'] + (['kb == 0 and i == 0 and j == 0'] if op in (1, 2, 6) else []) + (['kb == 0'] if op in (3, 4, 5, 7) else []),
+                       '0 <= kind <= 7', '0 <= kb <= 7'] + (['kb == 0 and i == 0 and j == 0'] if op in (1, 2, 6) else []) + (['kb == 0'] if op in (3, 4, 5, 7) else []),
                       'A.step_carray(%r, %d, n, a0, b0, a1, b1, i, j, kind, iv, kb, ivb, %d)' % (which, op, cnt),
                       'MC/%s/%s%s' % (which, name, ('/cnt%d' % cnt) if op == 2 else ''),
                       dict(op='%s on composite array %s' % (name, which), symbolic='length, element fields, index/slice, arguments'),
